@@ -37,6 +37,7 @@ def run(prog, rep):
     rep.part(montecarlo, prog, rep)
     rep.part(rejection, prog, rep)
     rep.part(window, prog, rep)
+    rep.part(sample_size, prog, rep)
     rep.part(cache, prog, rep)
     rep.expect_min("C16.window", 1)
     rep.expect_min("C16.cache", 1)
@@ -202,6 +203,10 @@ def wiring(prog, rep):
     x = P("x")
     w1 = ("bin", "*", ("call", ("attr", A("model"), "pdf"), (("call", A("transform"), (x,), ()),), ()), ("call", A("jacobian"), (x,), ()))
     w2 = ("bin", "*", w1[3], w1[2])
+    # the points may first be checked / converted (np.asarray_chkfinite(x), np.asarray(x)): the same points
+    from vstat.terms import subst as _subst
+    for conv_ in (G("numpy.asarray_chkfinite"), G("numpy.asarray"), G("numpy.array")):
+        t = _subst(t, {("call", conv_, (x,), ()): x}) if t is not None else t
     rep.check(t in (w1, w2), "C16.wiring", f"{TM}.pdf", fn.where(), "model.pdf(transform(x)) * jacobian(x)",
               f"the push-forward density must be self.model.pdf(self.transform(x)) * self.jacobian(x) - base density at the transformed point times the Jacobian at x; found {show(t)[:160] if t else None}")
     fn, t, r = ret_term(f"{TM}.draw_sample")
@@ -209,7 +214,8 @@ def wiring(prog, rep):
     rep.check(ok, "C16.wiring", f"{TM}.draw_sample", fn.where(), "inverse(model.draw_sample(n))",
               f"samples must be the inverse-transformed samples of the base model: self.inverse(self.model.draw_sample(n)); found {show(t)[:140] if t else None}")
     fn, t, r = ret_term(f"{TM}.fit")
-    ok = t is not None and t[0] == "call" and t[1] == ("attr", A("model"), "fit") and t[2][:1] == (("call", A("transform"), (P("data"),), ()),)
+    dat_ = (P("data"), ("call", G("numpy.array"), (P("data"),), ()), ("call", G("numpy.asarray"), (P("data"),), ()))
+    ok = t is not None and t[0] == "call" and t[1] == ("attr", A("model"), "fit") and t[2][:1] in tuple((("call", A("transform"), (d_,), ()),) for d_ in dat_)
     rep.check(ok, "C16.wiring", f"{TM}.fit", fn.where(), "model.fit(transform(data), ...)",
               f"fitting must fit the base model to the TRANSFORMED data; found {show(t)[:140] if t else None}")
     init = prog.func(f"{TM}.__init__")
@@ -386,6 +392,28 @@ def rng(prog, rep):
                 okg = True
     rep.check(okg, "C16.rng", f"{MM}.conditional_sample:generator", cs.where(), "rng = np.random.default_rng(random_state)",
               "the rejection sampler must draw from np.random.default_rng(random_state) only")
+
+
+def sample_size(prog, rep):
+    """conditional_sample(n, ...) returns n values whenever at least n were accepted; only a shortfall is returned as it is (with the
+    warning).  Whether the budget of iterations was used up says nothing about that: the n-th value may be accepted in the last iteration."""
+    from vstat.terms import ordered
+    q = f"{JM}.MultivariateModel.conditional_sample"
+    fn = prog.func(q)
+    b = builder(prog, fn, inline=False)
+    pcs = path_conditions(prog, fn, b)
+    n = P("n")
+    bad = []
+    rets = [s for s in cfg_of(fn).all_stmts() if isinstance(s, ast.Return) and s.value is not None]
+    for r in rets:
+        t = b.term(r.value, r)
+        cut = t[0] == "sub" and t[2][0] == "slice" and t[2][2] == n and t[2][1] == NONE
+        short = any((ordered(l) is not None and ordered(l)[1] == n and ordered(l)[2]) for l in pcs.of(r))   # ... < n
+        if not cut and not short:
+            bad.append(r)
+    rep.check(bool(rets) and not bad, "C16.reject", f"{q}:size", fn.where(bad[0]) if bad else fn.where(), "every return is cut to n values or is a shortfall (fewer than n accepted)",
+              "a return hands back ALL accepted values without cutting to n although it is not limited to the case 'fewer than n accepted' (the loop index "
+              "reaching max_iter - 1 is not that case): conditional_sample(1000, ..., max_iter=1) returned 2282 values with a 'sample size is only 2282' warning")
 
 
 def window(prog, rep):
